@@ -6,6 +6,13 @@ def spec(tier, seed):
     gen, jobs = cs.jobs_for(tier, seed, quick_n=12)
     generated = {"h263/src/decoder/state.rs": gen}
 
+    from vf import gen_reader as gr
+    rgen = ""
+    hs = [h for h in gr.build(tier, seed) if h[1] < 6]
+    for (name, L, chunk, unwind) in (hs if tier == "thorough" else hs[:6]):
+        rgen += gr.harness_src(name, L, chunk, unwind)
+        jobs.append(Job("h263", name, 900, group="reader: failed reads at the end of short sources lose nothing", params={"source_bytes": L, "sequences": [gr.describe(p_, o_) for p_, o_ in chunk]}))
+    generated["h263/src/parser/reader.rs"] = rgen
     return {"jobs": jobs, "generated": generated, "functions": m.FUNCS + EXTRA_FUNCS, "stubs": m.STUBS, "rule": m.RULE + " " + RULE_EXTRA,
             "bounds": BOUNDS, "outside": m.OUTSIDE + OUTSIDE_EXTRA, "assumptions": m.ASSUME}
 
